@@ -685,10 +685,20 @@ def check_reward_terms(s):
 
 def distribute_item(n):
     """((A − B) / s)[i]  ->  (A[i] − B[i]) / s   (element-wise arithmetic commutes with indexing; s is a scalar)."""
+    def scalar(t):
+        return isinstance(t, tuple) and (t[0] == "const" or (t[0] == "attr" and t[1] == ("param", "self")))
+
     def f(x):
-        if x and x[0] == "item" and isinstance(x[1], tuple) and x[1][0] == "bin" and x[1][1] == "Div" and isinstance(x[1][2], tuple) and x[1][2][0] == "bin" and x[1][2][1] in ("Sub", "Add"):
-            num = x[1][2]
-            return ("bin", "Div", ("bin", num[1], ("item", num[2], x[2]), ("item", num[3], x[2])), x[1][3])
+        if x and x[0] == "item" and isinstance(x[1], tuple):
+            b_ = x[1]
+            if b_[0] == "bin" and b_[1] in ("Sub", "Add"):
+                return ("bin", b_[1], f(("item", b_[2], x[2])), f(("item", b_[3], x[2])))
+            if b_[0] == "un" and b_[1] == "USub":
+                return ("un", "USub", f(("item", b_[2], x[2])))
+            if b_[0] == "bin" and b_[1] in ("Div", "Mult") and scalar(b_[3]):
+                return ("bin", b_[1], f(("item", b_[2], x[2])), b_[3])
+            if b_[0] == "bin" and b_[1] == "Mult" and scalar(b_[2]):
+                return ("bin", b_[1], b_[2], f(("item", b_[3], x[2])))
         return x
 
     return mapnodes(n, f)
